@@ -17,7 +17,7 @@ EInit == l = 1 /\ desc = <<>> /\ q = <<>> /\ u = <<>>
 ENext == l <= Len(Log) /\ l' = l + 1 /\ Load(Log[l])
 ESpec == EInit /\ [][ENext]_<<desc, q, u, l>>
 \* evaluated as an invariant (unprimed context, so TLC caches the LET definitions)
-EmitAndCheck == l > 1 => LET r == Eval(Log[l - 1].dyn = 1, Log[l - 1].ud, Log[l - 1].F, Log[l - 1].q2, Log[l - 1].u2, Log[l - 1].tasks, Log[l - 1].cons) IN
+EmitAndCheck == l > 1 => LET r == Eval(Log[l - 1].dyn = 1, Log[l - 1].ud, Log[l - 1].F, Log[l - 1].q2, Log[l - 1].u2, Log[l - 1].tasks, Log[l - 1].cons, Log[l - 1].felems, Log[l - 1].felems2) IN
                            /\ PrintT("OUT " \o ToJson([i |-> l - 1, r |-> r]))
-                           /\ r.sym /\ r.keIsUMU /\ r.diagPos /\ r.proper /\ r.kaneLinear /\ r.rootBalance /\ r.aerrAffine
+                           /\ r.sym /\ r.keIsUMU /\ r.diagPos /\ r.proper /\ r.kaneLinear /\ r.rootBalance /\ r.aerrAffine /\ r.forceLaws
 =============================================================================
